@@ -364,19 +364,25 @@ func ruleUsageOctets(w *World, c *Check, rule string) {
 		return
 	}
 	fa := NewFuncAn(w, fn)
+	// the returned bytes, however assembled (bytes.Buffer + binary.Write + append, make + PutUint32,
+	// a literal of shifted bytes …), are BE32(usage) at 0:4 followed by the octet at 4:5
 	ok := false
 	var got []string
-	for _, rs := range fa.returnsOf() {
-		got = append(got, rs...)
-		if len(rs) == 1 && rs[0] == substParams(fn, `append(bytes.(*Buffer).Bytes(local<bytes.Buffer>), [o])`) {
-			ok = true
+	for _, v := range returnedBytes(fa) {
+		ps, total := fa.BufferPlaces(v)
+		got = append(got, "len "+total+": "+placesString(ps))
+		want := []string{"", ""}
+		if len(fn.Params) == 2 {
+			want = []string{"BE32(" + fa.R.R(fn.Params[0]) + ")@0:4", fa.R.R(fn.Params[1]) + "@4:5"}
+		}
+		ok = total == "5" && len(ps) == 2 && ps[0].String() == want[0] && ps[1].String() == want[1]
+		if !ok {
+			break
 		}
 	}
-	wr := fa.Calls(`encoding/binary\.Write`)
-	okW := len(wr) == 1 && fa.RenderCall(wr[0]) == substParams(fn, `encoding/binary.Write(local<bytes.Buffer>, encoding/binary.BigEndian, un)`)
 	isU32 := len(fn.Params) == 2 && fn.Params[0].Type().String() == "uint32"
-	c.Decide(ok && okW && isU32, rule, FuncKey(fn), "layout", w.Pos(fn.Pos()), "usage constant = uint32 usage number written big-endian (4 bytes) followed by the octet",
-		fmt.Sprintf("returns %v; writes %v; first parameter uint32: %v", got, renderCalls(fa, wr), isU32))
+	c.Decide(ok && isU32, rule, FuncKey(fn), "layout", w.Pos(fn.Pos()), "usage constant = uint32 usage number written big-endian (4 bytes) followed by the octet",
+		fmt.Sprintf("returns %v; first parameter uint32: %v", got, isU32))
 }
 
 func renderCalls(fa *FuncAn, cs []ssa.CallInstruction) []string {
